@@ -276,6 +276,35 @@ fn check_value_kind(v: &V) -> Verdict {
             return Err((format!("getter:{name}"), format!("{name} returns Some for an absent key")));
         }
     }
+    // the accessors without a key: id() / safe_id() read `id`, ts() reads `mod`
+    {
+        let mut m = std::collections::BTreeMap::new();
+        m.insert("id".to_string(), lv.clone());
+        m.insert("mod".to_string(), lv.clone());
+        let d2 = Dict::from(m);
+        let as_v = |r: Option<Value>| r.map(|x| from_lib(&x));
+        let id = as_v(d2.id().map(|r| Value::from(r.clone())));
+        let ts = as_v(d2.ts().map(|t| Value::from(*t)));
+        let safe = from_lib(&Value::from(d2.safe_id()));
+        match (want == "ref", id) {
+            (true, Some(back)) => same(v, &back).map_err(|d| ("getter-payload:id".to_string(), d))?,
+            (false, None) => {}
+            (w, got) => return Err(("getter:id".into(), format!("id() on a {want} `id` tag: expected Some = {w}, got {got:?}"))),
+        }
+        if want == "ref" {
+            same(v, &safe).map_err(|d| ("getter-payload:safe_id".to_string(), d))?;
+        } else {
+            same(&from_lib(&Value::from(Ref::default())), &safe).map_err(|d| ("getter:safe_id".to_string(), format!("safe_id() on a {want} `id` tag is not the default ref: {d}")))?;
+        }
+        match (want == "dateTime", ts) {
+            (true, Some(back)) => same(v, &back).map_err(|d| ("getter-payload:ts".to_string(), d))?,
+            (false, None) => {}
+            (w, got) => return Err(("getter:ts".into(), format!("ts() on a {want} `mod` tag: expected Some = {w}, got {got:?}"))),
+        }
+        if Dict::default().id().is_some() || Dict::default().ts().is_some() {
+            return Err(("getter:id".into(), "id()/ts() on an empty dict".into()));
+        }
+    }
     for (name, target, got) in [("has_marker", "marker", d.has_marker("k")), ("has_na", "na", d.has_na("k")), ("has_remove", "remove", d.has_remove("k"))] {
         if got != (target == want) {
             return Err((format!("getter:{name}"), format!("{name} is {got} for a {want} tag")));
@@ -456,7 +485,7 @@ fn check_grid_build(recs: &[Tags]) -> Verdict {
 
 pub fn run(tier: Tier) -> i32 {
     let mut run = Run::new("C19", tier, "exploration");
-    run.rule = "every value of Σ and U: the 18 predicates, HaystackKind::from, all 20 typed TryFrom<&Value> conversions, the 14 typed dict getters + 3 has_* (key present with that value / absent), and every other public way of building the same value (From / Into impls, make / make_* constructors, from_ymd / from_hms(_milli), FromStr for Date / Time / DateTime, make_datetime_from_iso, From<chrono types>, Dict via FromIterator in both orders / new+insert / default+extend / From<BTreeMap> / dict!, Grid::default and make_empty are empty) compared component-wise and with ==; all 256 u8 codes and all 18 names plus every near-miss name; every list of <= 4 (quick 3) records over 19 records (every key set over {a,b,c,d} + mixed-case names) through the three grid constructors, and records of every width 1..72, 100, 127..129, 255..257 in six list shapes (same record twice, one tag fewer then one more, overlapping halves, an empty record in the middle, even/odd/all, narrow-wide-narrow), and lists of every length 1..72, 100, 127..129, 255..257, 1000 in four shapes (columns first seen in the last records and sorting before / between / after the known ones, columns discovered in descending order, the widest record in the middle, a rotating key set); non-trivial = distinct value / name / record list".into();
+    run.rule = "every value of Σ and U: the 18 predicates, HaystackKind::from, all 20 typed TryFrom<&Value> conversions, the 14 typed dict getters + 3 has_* + id() / safe_id() / ts() (key present with that value / absent), and every other public way of building the same value (From / Into impls, make / make_* constructors, from_ymd / from_hms(_milli), FromStr for Date / Time / DateTime, make_datetime_from_iso, From<chrono types>, Dict via FromIterator in both orders / new+insert / default+extend / From<BTreeMap> / dict!, Grid::default and make_empty are empty) compared component-wise and with ==; all 256 u8 codes and all 18 names plus every near-miss name; every list of <= 4 (quick 3) records over 19 records (every key set over {a,b,c,d} + mixed-case names) through the three grid constructors, and records of every width 1..72, 100, 127..129, 255..257 in six list shapes (same record twice, one tag fewer then one more, overlapping halves, an empty record in the middle, even/odd/all, narrow-wide-narrow), and lists of every length 1..72, 100, 127..129, 255..257, 1000 in four shapes (columns first seen in the last records and sorting before / between / after the known ones, columns discovered in descending order, the widest record in the middle, a rotating key set); non-trivial = distinct value / name / record list".into();
     crate::engine::quiet_panics();
     let mut l0 = Local::new();
     if let Err(m) = guarded(|| check_codes(&mut l0)) {
